@@ -309,3 +309,187 @@ class add_duration:
 
 
 transparent("pendulum.helpers._sign")
+
+
+# ========================================================================================== precise_diff (C06)
+from pendulum._helpers import PreciseDiff
+
+from pyvc import zones
+
+_PD = ("years", "months", "days", "hours", "minutes", "seconds", "microseconds")
+
+
+def pd_pos(d):
+    """wall-clock microseconds of a date or datetime object"""
+    return obj_wall(d)
+
+
+def pd_rebuild(lo, comps):
+    """wall clock reached from `lo` by adding the (non-negative) components the way add()/add_duration() does:
+    shift years and months, clamp the day, then days and time"""
+    y, m, d, h, mi, s, us = comps
+    ty, tmo = shifted_ym(lo.year, lo.month, y, m)
+    return sym.add(base_wall(lo, ty, tmo), sym.add(sym.mul(d, DUS), sym.add(sym.mul(sym.add(sym.add(sym.mul(h, 3600), sym.mul(mi, 60)), s), M), us)))
+
+
+def pd_ranges(c):
+    y, m, d, h, mi, s, us = c
+    return And(ge(y, 0), sym.between(0, m, 11), sym.between(0, d, 30), sym.between(0, h, 23), sym.between(0, mi, 59), sym.between(0, s, 59),
+               sym.between(0, us, M - 1))
+
+
+def pd_clauses(result, lo, hi, sign, day_lo, day_hi):
+    """C06 for one ordered pair of positions lo <= hi: canonical ranges and exact rebuild"""
+    c = tuple(sym.mul(getattr(result, n), sign) for n in _PD)
+    return [("canonical_ranges", pd_ranges(c)),
+            ("rebuilds_the_end_from_the_start", eq(pd_rebuild(lo, c), pd_pos(hi))),
+            # whole calendar days between the two (local) dates; equal values report 0 whatever their zones
+            ("total_days", Or(eq(pd_pos(lo), pd_pos(hi)), eq(sym.mul(result.total_days, sign), sym.sub(spec.date_ord(day_hi), spec.date_ord(day_lo)))))]
+
+
+def fresh_pd(F, hint="pd"):
+    return Obj(PreciseDiff, **{n: F.int(f"{hint}_{n}") for n in _PD + ("total_days",)})
+
+
+def kf_full_month_arm(d1, d2):
+    """region of known finding C06-full-month: the 'exactly a full month' arm of precise_diff
+    (day difference negative and equal to days_in_month(end month) - days_in_month(previous month))"""
+    lo_first = le(pd_pos(d1), pd_pos(d2))
+
+    def arm(lo, hi):
+        borrow = sym.b2i(lt(_tod(hi), _tod(lo)))
+        dd = sym.sub(sym.sub(hi.day, lo.day), borrow)
+        py = If(eq(hi.month, 1), sym.sub(hi.year, 1), hi.year)
+        pm = If(eq(hi.month, 1), 12, sym.sub(hi.month, 1))
+        return And(lt(dd, 0), eq(dd, sym.sub(spec.dim(hi.year, hi.month), spec.dim(py, pm))))
+
+    return If(lo_first, arm(d1, d2), arm(d2, d1))
+
+
+def _tod(o):
+    if has_time(o):
+        return spec.tod_us(o.hour, o.minute, o.second, o.microsecond)
+    return 0
+
+
+class _pd_same_clock:
+    """both values on the same clock (naive pair, date pair): components of the later minus the earlier"""
+
+    def result(F, d1, d2):
+        return fresh_pd(F)
+
+    def ensures(result, d1, d2):
+        p1, p2 = pd_pos(d1), pd_pos(d2)
+        fwd = le(p1, p2)
+        out = []
+        for (label, c1), (_, c2) in zip(pd_clauses(result, d1, d2, 1, d1, d2), pd_clauses(result, d2, d1, -1, d2, d1)):
+            out.append((label, If(fwd, c1, c2)))
+        out.append(("equal_values_give_zero", Implies(eq(p1, p2), And(*[eq(getattr(result, n), 0) for n in _PD + ("total_days",)]))))
+        return out
+
+
+def _pd_args(kind):
+    def args(F):
+        if kind == "dates":
+            a, ca = stdlib.fresh_date(F, _dt.date, "d1")
+            b, cb = stdlib.fresh_date(F, _dt.date, "d2")
+        else:
+            a, ca = stdlib.fresh_datetime(F, _dt.datetime, "d1", tzinfo=None, fold=0)
+            b, cb = stdlib.fresh_datetime(F, _dt.datetime, "d2", tzinfo=None, fold=0)
+        return dict(d1=a, d2=b), [ca, cb]
+
+    return args
+
+
+@contract("pendulum._helpers.precise_diff", props=["C06", "C05", "C18", "C19"])
+class precise_diff:
+    class naive(_pd_same_clock):
+        applies = staticmethod(lambda d1, d2: has_time(d1) and has_time(d2) and d1.tzinfo is None and d2.tzinfo is None)
+        args = _pd_args("naive")
+
+    class dates(_pd_same_clock):
+        applies = staticmethod(lambda d1, d2: not has_time(d1) and not has_time(d2))
+        args = _pd_args("dates")
+
+    class same_zone(_pd_same_clock):
+        """aware pair in one zone (same name) with the same UTC offset at both ends: wall-clock decomposition"""
+        options = {"tier": "thorough"}  # 2-4 min per obligation: the UTC shift doubles the calendar terms
+
+        def applies(d1, d2):
+            return (has_time(d1) and has_time(d2) and d1.tzinfo is not None and d2.tzinfo is not None and _zone_name_same(d1.tzinfo, d2.tzinfo) is True)
+
+        def args(F):
+            from pendulum.tz.timezone import Timezone
+
+            tz, zc = stdlib.fresh_zone(F, Timezone, "tz", k=2)
+            a, ca = stdlib.fresh_datetime(F, _dt.datetime, "d1", tzinfo=tz, fold=0)
+            b, cb = stdlib.fresh_datetime(F, _dt.datetime, "d2", tzinfo=tz, fold=0)
+            return dict(d1=a, d2=b), [zc, ca, cb]
+
+        def requires(d1, d2):
+            return [("same_utc_offset_at_both_ends", eq(zones.offset_of(d1), zones.offset_of(d2))),
+                    ("instants_representable", And(stdlib.in_dt_range(zones.instant(d1)), stdlib.in_dt_range(zones.instant(d2))))]
+
+    class different_zones:
+        """endpoints in differently named zones: decomposed as the same two instants expressed in UTC"""
+        options = {"tier": "thorough"}
+
+        def applies(d1, d2):
+            return (has_time(d1) and has_time(d2) and d1.tzinfo is not None and d2.tzinfo is not None and _zone_name_same(d1.tzinfo, d2.tzinfo) is False)
+
+        def args(F):
+            from pendulum.tz.timezone import Timezone
+
+            z1, c1 = stdlib.fresh_zone(F, Timezone, "z1", k=1)
+            z2, c2 = stdlib.fresh_zone(F, Timezone, "z2", k=1)
+            a, ca = stdlib.fresh_datetime(F, _dt.datetime, "d1", tzinfo=z1, fold=0)
+            b, cb = stdlib.fresh_datetime(F, _dt.datetime, "d2", tzinfo=z2, fold=0)
+            # ghosts: the two instants as UTC wall clocks (uniquely determined by their defining equations)
+            u1, g1 = _utc_ghost(F, a, "u1")
+            u2, g2 = _utc_ghost(F, b, "u2")
+            return dict(d1=a.with_fields(_utc=u1), d2=b.with_fields(_utc=u2)), [c1, c2, ca, cb, g1, g2, ne(z1.key.tok, z2.key.tok)]
+
+        def requires(d1, d2):
+            return [("instants_representable", And(stdlib.in_dt_range(zones.instant(d1)), stdlib.in_dt_range(zones.instant(d2))))]
+
+        def result(F, d1, d2):
+            return fresh_pd(F)
+
+        @staticmethod
+        def _clauses(result, d1, d2, u1, u2):
+            p1, p2 = pd_pos(u1), pd_pos(u2)
+            fwd = le(p1, p2)
+            out = []
+            # total_days is counted on the local calendar dates, the components on the UTC clocks
+            for (label, c1), (_, c2) in zip(pd_clauses(result, u1, u2, 1, d1, d2), pd_clauses(result, u2, u1, -1, d2, d1)):
+                out.append((label, If(fwd, c1, c2)))
+            return out
+
+        def ensures(result, d1, d2):
+            return precise_diff.different_zones._clauses(result, d1, d2, d1.f["_utc"], d2.f["_utc"])
+
+        def assume(F, result, d1, d2):
+            u1, g1 = _utc_ghost(F, d1, "u1")
+            u2, g2 = _utc_ghost(F, d2, "u2")
+            return [("ghosts", And(g1, g2))] + precise_diff.different_zones._clauses(result, d1, d2, u1, u2)
+
+    cases = {"naive": naive, "dates": dates, "same_zone": same_zone, "different_zones": different_zones}
+
+
+def _utc_ghost(F, d, hint):
+    u, valid = stdlib.fresh_datetime(F, _dt.datetime, hint, tzinfo=None, fold=0)
+    return u, And(valid, eq(spec.wall_us(u), zones.instant(d)))
+
+
+def _zone_name_same(z1, z2):
+    """True / False when the names are known to be equal / different, None otherwise"""
+    n1 = z1.f.get("key", z1.f.get("_name"))
+    n2 = z2.f.get("key", z2.f.get("_name"))
+    if n1 is n2 or (hasattr(n1, "tok") and hasattr(n2, "tok") and n1.tok is n2.tok):
+        return True
+    if isinstance(n1, str) and isinstance(n2, str):
+        return n1 == n2
+    return False if z1.oid != z2.oid else True
+
+
+transparent("pendulum._helpers._get_tzinfo_name")
